@@ -120,6 +120,7 @@ class Gen:
         self.blocks: list[str] = []
         self.cur_block: int | None = None  # index of the block being generated (None = outside blocks)
         self.cur_template = "main"
+        self.inc_uses_lv = False
 
     # -- helpers -------------------------------------------------------------
     def d(self, n: int) -> int:
@@ -184,7 +185,7 @@ class Gen:
         if k == 0:
             return self.pick(sc.strs) if sc.strs else "'q'"
         if k == 1:
-            return self.pick(["'a'", "'<i>'", "'x y'"])
+            return self.pick(["'a'", "'<i>'", "'x y'", "'p\nq'"])
         if k == 2:
             return f"{self.c_int(sc, depth + 1)}|string"
         if k == 3:
@@ -230,7 +231,7 @@ class Gen:
             if k == 1:
                 return "ai1|sum"
             if k == 2:
-                return "ai1|first"
+                return self.pick(["ai1|first", "gc1(1)", "gc1(n1)"])
             k -= 3
         if k == 0:
             return "(u1.nope|default(7))"
@@ -252,7 +253,7 @@ class Gen:
         if k == 0:
             return self.pick(sc.strs or STR_VARS)
         if k == 1:
-            return self.pick(["'a'", "'<i>'", "'x y'", "''", "'é&'"])
+            return self.pick(["'a'", "'<i>'", "'x y'", "''", "'é&'", "'p\nq'", "'r\r\ns'"])
         if k == 2:
             return self.pick(STR_VARS)
         if k == 3:
@@ -577,6 +578,9 @@ class Gen:
                 P.feat("include_missing")
             if "without" in ctx:
                 P.feat("include_without_context")
+            if getattr(self, "inc_uses_lv", False) and self.chance(1, 2):
+                P.feat("include_in_lv_loop")
+                return self.tag(f"for lv in {self.e_list(sc, 1, 'int')}") + self.tag(f"include {name}{ctx}") + self.tag("endfor")
             return self.tag(f"include {name}{ctx}")
         if k == 10:
             name, kind, nargs = self.pick(self.mod_exports)
@@ -818,7 +822,15 @@ class Gen:
     def gen_inc(self) -> str:
         self.cur_template = "inc"
         sc = Scope()
-        return "[" + self.body(sc, 2, 1 + self.d(2)) + "]"
+        s = "[" + self.body(sc, 2, 1 + self.d(2))
+        if self.chance(1, 2):
+            # resolves a loop variable of the including template (after an await in async mode)
+            self.prog.feat("inc_uses_includer_loop_var")
+            self.inc_uses_lv = True
+            if self.is_async:
+                s += self.var("af1(0)")
+            s += self.var("lv|default('-')")
+        return s + "]"
 
     def generate(self) -> Program:
         P = self.prog
@@ -869,7 +881,18 @@ class Gen:
             self.cur_template = "main"
             self.mod_exports = list(saved_exports)
             sc = Scope()
-            parts = [self.tag("extends 'base'")]
+            ext = self.d(6)
+            if ext == 4:
+                # parent chosen by data: the same child renders with different parents
+                P.feat("extends_dynamic")
+                vs = self.sx.vs
+                P.templates["base2"] = "B2(" + P.templates["base"].replace(f"{vs} ", f"{vs} 7 ~ ") + ")"
+                parts = [self.tag("extends pv")]
+            elif ext == 5:
+                P.feat("extends_conditional")
+                parts = [self.tag("if n1 is defined") + self.tag("extends 'base'") + self.tag("endif")]
+            else:
+                parts = [self.tag("extends 'base'")]
             if use_mod:
                 parts.append(self.import_stmt())
             if self.chance(1, 2):
@@ -904,22 +927,31 @@ class Gen:
             P.entry_points = ["main"]
         if use_inc:
             P.entry_points.append("inc")
-        if not self.probe and self.chance(1, 6):
-            # the same filter with and without optional arguments, in one template set: a filter that
-            # remembers an argument (policy dicts, defaults) shows up as a later render that differs
-            P.feat("paired_filter_arguments")
-            plain, arg = self.pick([
+        if not self.probe and self.chance(1, 5):
+            # one feature used two ways in two templates of the set (optional arguments given / not given, a plain
+            # generator and a generator-based coroutine passing through the same helper ...): code that remembers
+            # something from one use (policy dicts, per-type memo tables, defaults) shows up as a later render of
+            # the OTHER template that differs from its isolated render
+            P.feat("paired_feature_uses")
+            pairs = [
                 ("ld|tojson", "d1|tojson(indent=2)"),
                 ("l1|join", "l1|join('-')"),
                 ("s1|truncate(3)", "s1|truncate(3, true, '!', 0)"),
                 ("s1|urlize", "s1|urlize(rel='x', target='_top')"),
                 ("l1|sum", "lw|sum(start=l0)|length"),
                 ("s1|indent", "s1|indent(3, true)"),
-            ])
-            P.templates["main"] += self.var(plain) + self.var(arg)
+                ("l1|batch(2)|list|length", "l1|unique|list|length"),
+            ]
+            if self.is_async:
+                pairs += [("l1|batch(2)|list|length", "gc1(2)"), ("l1|unique|list|length", "gc1(n1)"),
+                          ("af1(1)", "gc1(1)"), ("ai1|list|length", "ag1()|list|length")]
+            plain, arg = self.pick(pairs)
             other = [n for n in P.entry_points if n != "main"]
             if other:
+                P.templates["main"] += self.var(arg)
                 P.templates[other[0]] += self.var(plain)
+            else:
+                P.templates["main"] += self.var(plain) + self.var(arg)
         return P
 
 
@@ -989,6 +1021,7 @@ def make_data_rng(rng) -> dict:
         "o1": Obj(rng.randrange(3), rng.choice(strs), rng.randrange(5)),
         "lo": [Obj(rng.randrange(3), rng.choice(strs), rng.randrange(5)) for _ in range(1 + rng.randrange(3))],
         "tree": make_tree(rng),
+        "pv": rng.choice(["base", "base2"]),
         "f1": f1,
         "f2": f2,
     }
